@@ -5,8 +5,17 @@ package ledger
 import (
 	"math/big"
 
+	"github.com/meshplus/bitxhub-kit/types"
+	ethledger "github.com/meshplus/eth-kit/ledger"
+
 	zz "github.com/meshplus/bitxhub/internal/zzverif"
 )
+
+type pendingCommit struct {
+	h        uint64
+	accounts map[string]ethledger.IAccount
+	root     *types.Hash
+}
 
 // zzSame compares a read result with the model: existence and bytes.
 func zzSameRead(ok bool, got []byte, want []byte) bool {
@@ -29,12 +38,34 @@ func ZZH_C13_single_key() {
 	var snapModel [][]byte
 	var snapIDs []int
 	height := uint64(0)
+	// a flushed block whose Commit is still outstanding (the executor may persist asynchronously)
+	var pending *pendingCommit
+	commitPending := func() {
+		if pending != nil {
+			if err := l.Commit(pending.h, pending.accounts, pending.root); err != nil {
+				panic(err)
+			}
+			pending = nil
+		}
+	}
+	// optional committed pre-state, so that short histories start from database + cache content
+	if zz.Choice("prestate", 2) == 1 {
+		v := []byte{zz.U8("v0")}
+		l.SetState(addr, key, v, nil)
+		height++
+		zzCommit(l, height)
+		model = v
+		if zz.Choice("coldCache", 2) == 1 {
+			cache, _ = NewAccountCache()
+			l = zzNewLedger(store, cache)
+		}
+	}
 	k := 3
 	if zz.Thorough() {
 		k = 4
 	}
 	for step := 0; step < k; step++ {
-		switch zz.Choice("op", 6) {
+		switch zz.Choice("op", 7) {
 		case 0: // SetState
 			v := zzValue("v")
 			l.SetState(addr, key, v, nil)
@@ -51,15 +82,14 @@ func ZZH_C13_single_key() {
 			}
 			snapModel, snapIDs = nil, nil // AddState is not journaled: reverting across it is outside the statement
 		case 2: // commit block
+			commitPending()
 			height++
 			zzCommit(l, height)
 			snapModel, snapIDs = nil, nil
-		case 3: // reopen: new ledger and cache over the same store (uncommitted writes are lost)
-			if zz.Choice("dirty-allowed", 1) == 0 {
-				// only reopen at block boundaries
-				height++
-				zzCommit(l, height)
-			}
+		case 3: // reopen: new ledger and cache over the same store (at a block boundary)
+			commitPending()
+			height++
+			zzCommit(l, height)
 			cache, _ = NewAccountCache()
 			l = zzNewLedger(store, cache)
 			snapModel, snapIDs = nil, nil
@@ -74,11 +104,19 @@ func ZZH_C13_single_key() {
 			l.RevertToSnapshot(snapIDs[n])
 			model = snapModel[n]
 			snapIDs, snapModel = snapIDs[:n], snapModel[:n]
+		case 6: // end of block: flush now, commit later (next block starts on cache + stale database)
+			commitPending()
+			height++
+			acc, root := l.FlushDirtyData()
+			pending = &pendingCommit{h: height, accounts: acc, root: root}
+			snapModel, snapIDs = nil, nil
 		}
 		ok, got := l.GetState(addr, key)
-		zz.Observe("read", []interface{}{step, ok, got, model == nil, len(model)})
 		zz.Assert("C13.read-latest", zzSameRead(ok, got, model))
 	}
+	commitPending()
+	ok, got := l.GetState(addr, key)
+	zz.Assert("C13.read-latest-after-commit", zzSameRead(ok, got, model))
 	zz.Cover("C13.deep", height >= 1)
 }
 
